@@ -1018,6 +1018,24 @@ func (x *Exec) doAppend(st *State, fr *Frame, c *ssa.CallCommon, resT types.Type
 	}
 	oldArr := st.name("oarr", sel(h, sliceArr(s)))
 	ln := sliceLen(s)
+	if cell := ownedAccumulator(c); cell != nil && nConst >= 1 && nConst <= 8 {
+		// append on a function-local accumulator (x = append(x, e...)): copy-on-append
+		// without quantifiers; the slice always starts at offset 0 of its own array
+		x.note("append on function-local accumulator slices (x = append(x, ...)) is modelled as copy-on-append into a fresh array")
+		r := st.allocate("app")
+		content := oldArr
+		// normalise to offset 0: for owned accumulators the offset is 0 by construction, otherwise shift is needed
+		offZero := eq(sliceOff(s), mkInt(0))
+		for j := 0; j < nConst; j++ {
+			content = store(content, app(SInt, "+", ln, mkInt(int64(j))), src(mkInt(int64(j))))
+		}
+		newLen := app(SInt, "+", ln, mkInt(int64(nConst)))
+		capF := fresh("cap", SInt)
+		st.assume(and(app(SBool, ">=", capF, newLen), app(SBool, "<=", capF, T{"140737488355328", SInt})))
+		st.assume(offZero)
+		st.setHeap(arrHeapName(el), store(h, r, content))
+		return Val{T: st.name("appres", mkSlice(r, mkInt(0), newLen, capF)), typ: resT}
+	}
 	newLen := st.name("nlen", app(SInt, "+", ln, n))
 	fits := st.name("fits", and(app(SBool, "<=", newLen, sliceCap(s)), not(eq(n, mkInt(0)))))
 	// n == 0: append returns s itself (possibly nil)
@@ -1135,4 +1153,56 @@ func (x *Exec) doNext(st *State, fr *Frame, v *ssa.Next) {
 	}
 	st.ghost[name] = st.name("visited", ite(okv, store(visited, key, mkBool(true)), visited))
 	st.vals[v] = Val{tuple: []Val{{T: okv, typ: types.Typ[types.Bool]}, {T: key, typ: mt.Key()}, {T: val, typ: mt.Elem()}}, typ: v.Type()}
+}
+
+// ownedAccumulator recognises x = append(x, ...) on a non-escaping local slice
+// variable that is only ever assigned nil, a slice literal / make, or such an
+// append of itself.
+func ownedAccumulator(c *ssa.CallCommon) *ssa.Alloc {
+	ld, ok := c.Args[0].(*ssa.UnOp)
+	if !ok || ld.Op != token.MUL {
+		return nil
+	}
+	cell, ok := ld.X.(*ssa.Alloc)
+	if !ok || cell.Heap {
+		return nil
+	}
+	refs := cell.Referrers()
+	if refs == nil {
+		return nil
+	}
+	for _, r := range *refs {
+		st, ok := r.(*ssa.Store)
+		if !ok {
+			continue
+		}
+		if st.Addr != cell {
+			return nil
+		}
+		switch v := st.Val.(type) {
+		case *ssa.Const:
+			if v.Value != nil {
+				return nil
+			}
+		case *ssa.Call:
+			b, isB := v.Common().Value.(*ssa.Builtin)
+			if !isB || b.Name() != "append" {
+				return nil
+			}
+			l2, ok := v.Common().Args[0].(*ssa.UnOp)
+			if !ok || l2.X != cell {
+				return nil
+			}
+		case *ssa.MakeSlice:
+		case *ssa.Slice:
+			// slice literal: slice of a freshly allocated array, full range from 0
+			a, ok := v.X.(*ssa.Alloc)
+			if !ok || !a.Heap || v.Low != nil {
+				return nil
+			}
+		default:
+			return nil
+		}
+	}
+	return cell
 }
